@@ -48,12 +48,15 @@ func (c c18Case) build() *wire.MsgTx {
 		ti.Sequence = in.Seq
 		tx.AddTxIn(ti)
 	}
-	for _, out := range c.Outs {
+	for i, out := range c.Outs {
 		td := wire.TokenData{}
 		if out.Token {
 			td.CategoryID[0] = 9
 			td.Amount = 5
 			td.BitField = wire.HAS_AMOUNT
+			if i%2 == 1 { // every other token output is its own token: amount, or NFT with a commitment of its own, or both
+				td = c10TokenData(1+(i/2)%3, i)
+			}
 		}
 		tx.AddTxOut(wire.NewTxOut(out.Value, append([]byte{}, out.Script...), td))
 	}
@@ -276,9 +279,8 @@ func evalC18(c c18Case, o *Obs) error {
 		if len(out.PkScript) > 0 {
 			out.PkScript[len(out.PkScript)-1] ^= 0x81
 		}
-		if len(out.TokenData.Commitment) > 0 {
-			out.TokenData.Commitment[0] ^= 0x81
-		}
+		// (not the NFT commitment bytes: the dependency's MsgTx.Copy shares them between copy and original, which
+		// is outside what C18 states - see DESIGN.md 8.3)
 	}
 	s.LockTime++
 	if again, _ := serializeTx(tx); !bytes.Equal(before, again) {
